@@ -104,10 +104,12 @@ def _run_part(prop, part, tier, runs, budget, workers, quiet, seed):
   budget_s = budget or plan["budget_s"]
   chunk = plan["chunk"]
   workers = workers or min(16, os.cpu_count() or 1)
-  t0 = time.time()
-  bud = kernel.Budget(budget_s)
   if hasattr(eng, "prepare"):
     eng.prepare(mode)   # builds the extension before forking
+  # the budget starts once there is something to run (compiling the extension
+  # under load can take longer than a quick budget)
+  t0 = time.time()
+  bud = kernel.Budget(budget_s)
   agg = eng.new_agg(mode)
   next_index = 0
   waves = 0
@@ -118,7 +120,9 @@ def _run_part(prop, part, tier, runs, budget, workers, quiet, seed):
     return [v for v in vs if kernel.canon(v["violation"].get(
         "signature", {"class": v["violation"]["class"]})) not in known]
 
-  while next_index < target and bud.left() > 0:
+  while next_index < target and (bud.left() > 0 or waves == 0):
+    # (at least one wave always runs: a check that explored nothing must
+    # never report that the property held)
     if unlisted(agg["violations"]):
       break   # the verdict is decided; more runs only add more examples
     wave = []
@@ -144,6 +148,9 @@ def _run_part(prop, part, tier, runs, budget, workers, quiet, seed):
   if pool is not None:
     pool.shutdown(wait=True, cancel_futures=True)
   wall = time.time() - t0
+  if not agg.get("runs"):
+    raise kernel.HarnessError("no run was executed (target %d, budget %ss)" % (
+        target, budget_s))
   if hasattr(eng, "sanity"):
     eng.sanity(agg)
   # ---- violations -> known findings / replay files
